@@ -1,1 +1,200 @@
+(* TV.Uring.Facts — list facts behind the ring bookkeeping (swap_remove,
+   VecDeque::remove, the shuffle argument, the promotion loop). *)
 From TV.Lib Require Import Base.
+From Coq Require Import Permutation.
+From TV.Uring Require Import Gen Model.
+Open Scope N_scope.
+
+Lemma nth_error_split' {A} (l : list A) i x :
+  nth_error l i = Some x -> l = firstn i l ++ x :: skipn (S i) l.
+Proof.
+  revert i. induction l as [|a l IH]; intros [|i] H; cbn in *; try discriminate.
+  - now inversion H.
+  - f_equal. now apply IH.
+Qed.
+
+Lemma remove_nth_perm {A} (l : list A) i x :
+  nth_error l i = Some x -> Permutation l (x :: remove_nth i l).
+Proof.
+  intros H. rewrite (nth_error_split' l i x H) at 1. unfold remove_nth.
+  symmetry. apply Permutation_middle.
+Qed.
+
+Lemma removelast_last_rev {A} (l : list A) z t : rev l = z :: t -> l = removelast l ++ [z].
+Proof.
+  intros H. assert (L : l = rev t ++ [z]).
+  { rewrite <- (rev_involutive l), H. reflexivity. }
+  rewrite L at 2. rewrite removelast_last. exact L.
+Qed.
+
+Lemma swap_remove_perm {A} (l : list A) i x :
+  nth_error l i = Some x -> Permutation l (x :: swap_remove i l).
+Proof.
+  intros H. unfold swap_remove. rewrite H.
+  destruct (rev l) as [|z t] eqn:R.
+  - apply (f_equal (@length A)) in R. rewrite rev_length in R.
+    destruct l; [destruct i; discriminate|discriminate].
+  - destruct (Nat.eqb (S i) (length l)) eqn:E.
+    + apply Nat.eqb_eq in E.
+      pose proof (removelast_last_rev l z t R) as L.
+      assert (x = z).
+      { rewrite L in H. rewrite nth_error_app2 in H.
+        - assert (length (removelast l) = i).
+          { apply (f_equal (@length A)) in L. rewrite app_length in L. cbn in L. lia. }
+          rewrite H0, Nat.sub_diag in H. now inversion H.
+        - apply (f_equal (@length A)) in L. rewrite app_length in L. cbn in L. lia. }
+      subst. rewrite L at 1. apply Permutation_sym, Permutation_cons_append.
+    + apply Nat.eqb_neq in E.
+      pose proof (nth_error_split' l i x H) as Sp.
+      assert (Hlt : (i < length l)%nat) by (apply nth_error_Some; congruence).
+      set (tl := skipn (S i) l) in *.
+      assert (Rt : exists t', rev tl = z :: t').
+      { assert (tl <> []).
+        { intro Z. apply (f_equal (@length A)) in Z. unfold tl in Z. rewrite skipn_length in Z. cbn in Z. lia. }
+        clearbody tl. rewrite Sp in R. rewrite rev_app_distr in R. cbn in R. rewrite <- app_assoc in R.
+        destruct (rev tl) as [|z' t'] eqn:Rt.
+        - apply (f_equal (@rev A)) in Rt. rewrite rev_involutive in Rt. cbn in Rt. contradiction.
+        - cbn in R. inversion R. subst. eauto. }
+      destruct Rt as [t' Rt].
+      pose proof (removelast_last_rev tl z t' Rt) as Lt.
+      rewrite Sp at 1. rewrite Lt at 1.
+      (* firstn ++ x :: (rl ++ [z])  ~  x :: firstn ++ z :: rl *)
+      eapply perm_trans; [apply Permutation_sym, Permutation_middle|].
+      constructor. apply Permutation_app_head.
+      apply Permutation_sym, Permutation_cons_append.
+Qed.
+
+Lemma swap_remove_length {A} (l : list A) i x :
+  nth_error l i = Some x -> S (length (swap_remove i l)) = length l.
+Proof.
+  intros H. apply swap_remove_perm in H. apply Permutation_length in H. cbn in H. lia.
+Qed.
+
+Lemma find_ud_nth u l i c : find_ud u l = Some (i, c) -> nth_error l i = Some c /\ c_ud c = u.
+Proof.
+  revert i. induction l as [|x l IH]; cbn; intros i H; [discriminate|].
+  destruct (c_ud x =? u) eqn:E.
+  - inversion H; subst. split; [reflexivity|now apply N.eqb_eq].
+  - destruct (find_ud u l) as [[j y]|]; [|discriminate]. inversion H; subst. cbn. now apply IH.
+Qed.
+
+Lemma find_ud_none u l : find_ud u l = None -> forall c, In c l -> c_ud c <> u.
+Proof.
+  induction l as [|x l IH]; cbn; intros H c Hin; [contradiction|].
+  destruct (c_ud x =? u) eqn:E; [discriminate|].
+  destruct (find_ud u l) as [[j y]|] eqn:F; [discriminate|].
+  destruct Hin as [<-|Hin]; [now apply N.eqb_neq|auto].
+Qed.
+
+Lemma pick_perm u l c r : pick u l = Some (c, r) -> Permutation l (c :: r) /\ c_ud c = u.
+Proof.
+  revert c r. induction l as [|x l IH]; cbn; intros c r H; [discriminate|].
+  destruct (c_ud x =? u) eqn:E.
+  - inversion H; subst. split; [reflexivity|now apply N.eqb_eq].
+  - destruct (pick u l) as [[y r']|]; [|discriminate]. inversion H; subst.
+    destruct (IH _ _ eq_refl) as [P Q]. split; [|exact Q].
+    eapply perm_trans; [apply perm_skip, P|apply perm_swap].
+Qed.
+
+Lemma pick_none u l : pick u l = None -> forall c, In c l -> c_ud c <> u.
+Proof.
+  induction l as [|x l IH]; cbn; intros H c Hin; [contradiction|].
+  destruct (c_ud x =? u) eqn:E; [discriminate|].
+  destruct (pick u l) as [[y r']|] eqn:F; [discriminate|].
+  destruct Hin as [<-|Hin]; [now apply N.eqb_neq|auto].
+Qed.
+
+Lemma reorder_perm order batch : Permutation (reorder order batch) batch.
+Proof.
+  revert batch. induction order as [|u o IH]; intros batch; cbn; [reflexivity|].
+  destruct (pick u batch) as [[c rest]|] eqn:P; [|apply IH].
+  apply pick_perm in P as [P _]. eapply perm_trans; [apply perm_skip, IH|now symmetry].
+Qed.
+
+(* Every arrangement of a batch whose user_data are pairwise distinct is
+   produced by some `order` argument: the model's shuffle argument covers all
+   permutations the implementation's rng can draw. *)
+Lemma pick_head_distinct c l1 l2 :
+  ~ In (c_ud c) (map c_ud l1) -> pick (c_ud c) (l1 ++ c :: l2) = Some (c, l1 ++ l2).
+Proof.
+  induction l1 as [|x l1 IH]; intros Hn; cbn.
+  - now rewrite N.eqb_refl.
+  - cbn in Hn. destruct (c_ud x =? c_ud c) eqn:E.
+    + apply N.eqb_eq in E. exfalso. apply Hn. now left.
+    + rewrite IH; [reflexivity|]. intro. apply Hn. now right.
+Qed.
+
+Lemma reorder_onto batch target :
+  Permutation target batch -> NoDup (map c_ud batch) -> reorder (map c_ud target) batch = target.
+Proof.
+  revert batch. induction target as [|c t IH]; intros batch P ND; cbn.
+  - apply Permutation_nil in P. now subst.
+  - assert (Hin : In c batch) by (eapply Permutation_in; [exact P|now left]).
+    apply in_split in Hin as (l1 & l2 & ->).
+    assert (P' : Permutation t (l1 ++ l2)).
+    { apply Permutation_cons_inv with (a := c). eapply perm_trans; [exact P|].
+      apply Permutation_sym, Permutation_middle. }
+    assert (ND' : NoDup (map c_ud (c :: l1 ++ l2))).
+    { eapply Permutation_NoDup; [|exact ND]. apply Permutation_map, Permutation_sym, Permutation_middle. }
+    cbn in ND'. inversion ND' as [|? ? Hn Hd]; subst.
+    rewrite (pick_head_distinct c l1 l2).
+    + f_equal. now apply IH.
+    + intro Hi. apply Hn. rewrite map_app. apply in_or_app. now left.
+Qed.
+
+(* The promotion loop neither loses nor duplicates entries, and everything it
+   matures is due. *)
+Lemma promote_loop_spec fuel now : forall i infl m infl' m',
+  promote_loop fuel now i infl m = (infl', m') ->
+  Permutation (infl ++ m) (infl' ++ m') /\ exists m2, m' = m ++ m2 /\ Forall (fun c => due now c = true) m2.
+Proof.
+  induction fuel as [|f IH]; intros i infl m infl' m' H; cbn in H.
+  - inversion H; subst. split; [reflexivity|]. exists []. now rewrite app_nil_r.
+  - destruct (nth_error infl i) as [c|] eqn:N.
+    + destruct (due now c) eqn:D.
+      * apply IH in H as (P & m2 & -> & F). split.
+        -- eapply perm_trans; [|exact P].
+           eapply perm_trans; [apply Permutation_app_tail, (swap_remove_perm _ _ _ N)|].
+           cbn. rewrite app_assoc. apply Permutation_cons_app. rewrite <- app_assoc, app_nil_r. reflexivity.
+        -- exists (c :: m2). rewrite <- app_assoc. split; [reflexivity|]. now constructor.
+      * now apply IH in H.
+    + inversion H; subst. split; [reflexivity|]. exists []. now rewrite app_nil_r.
+Qed.
+
+(* With enough fuel nothing that is due stays behind. *)
+Lemma firstn_swap_remove {A} (l : list A) i : firstn i (swap_remove i l) = firstn i l.
+Proof.
+  unfold swap_remove. destruct (nth_error l i) as [x|] eqn:N; [|reflexivity].
+  destruct (rev l) as [|z t] eqn:R; [reflexivity|].
+  assert (Hlt : (i < length l)%nat) by (apply nth_error_Some; congruence).
+  destruct (Nat.eqb (S i) (length l)) eqn:E.
+  - apply Nat.eqb_eq in E. pose proof (removelast_last_rev l z t R) as L.
+    rewrite L at 2. rewrite firstn_app.
+    assert (length (removelast l) = i).
+    { apply (f_equal (@length A)) in L. rewrite app_length in L. cbn in L. lia. }
+    rewrite H, Nat.sub_diag. cbn. rewrite app_nil_r. rewrite <- H at 1. now rewrite firstn_all, <- H, firstn_all.
+  - rewrite firstn_app, firstn_firstn, Nat.min_id, firstn_length_le by lia.
+    rewrite Nat.sub_diag. cbn. now rewrite app_nil_r.
+Qed.
+
+Lemma promote_loop_left fuel now : forall i infl m infl' m',
+  promote_loop fuel now i infl m = (infl', m') ->
+  (length infl <= fuel + i)%nat ->
+  Forall (fun c => due now c = false) (firstn i infl) ->
+  Forall (fun c => due now c = false) infl'.
+Proof.
+  induction fuel as [|f IH]; intros i infl m infl' m' H L F; cbn in H.
+  - inversion H; subst. rewrite firstn_all2 in F by lia. exact F.
+  - destruct (nth_error infl i) as [c|] eqn:N.
+    + destruct (due now c) eqn:D.
+      * eapply IH; [exact H| |].
+        -- pose proof (swap_remove_length _ _ _ N). lia.
+        -- now rewrite firstn_swap_remove.
+      * eapply IH; [exact H|lia|].
+        rewrite (nth_error_split' _ _ _ N), firstn_app, firstn_firstn.
+        assert (Hlt : (i < length infl)%nat) by (apply nth_error_Some; congruence).
+        rewrite firstn_length_le by lia.
+        replace (Nat.min (S i) i) with i by lia. replace (S i - i)%nat with 1%nat by lia.
+        cbn. apply Forall_app. split; [exact F|]. constructor; [exact D|constructor].
+    + inversion H; subst. apply nth_error_None in N. rewrite firstn_all2 in F by lia. exact F.
+Qed.
